@@ -8,6 +8,14 @@ CLAIMED = {
          'Theorems in lean/RPVerif/Props/C06.lean prove, for every set of tasks and every history of notification batches, that no exception escapes _update_tasks, that a notification for one task is invisible to all others (batch independence), that the callbacks per task form a chain of single steps/FAILED/CANCELED with strictly increasing state values, and that final states are sticky. The model is tied to the code by a regenerated state table (theorem taskTable_ok), an exhaustive comparison of _task_state_progress and Task._update on their whole domain and a seeded differential run of the real TaskManager._update_tasks.',
          'Trusted: Lean kernel (axioms propext, Classical.choice, Quot.sound at most), the Python harness and translator, sampling for _update_tasks histories; callbacks are the synchronous non-bulk path; ZMQ delivery is not modelled.',
          'DESIGN.md section 6 C06'),
+ 'C13': ('Lean 4 proof (structural induction over pilots and tasks; the callback equals a per-task `expected` map) + sampled differential tie to TaskManager._pilot_state_cb / Task._update',
+         'Theorem C13 proves for every set of tasks, every binding and every list of pilot states in any order that the model of _pilot_state_cb never raises and returns exactly `expected`: non-final tasks bound to a pilot that ended are FAILED with a detail naming it, all other tasks are untouched (C13_own_tasks_failed, C13_others_untouched, C13_order). The model is tied by a differential run of the real callback on real Task objects (1 task x every state x binding exhaustively, random managers beyond).',
+         'Trusted: Lean kernel, harness; tmgr.advance is recorded rather than delivered; one callback invocation at a time (subscriber thread).',
+         'DESIGN.md section 6 C13'),
+ 'C14': ('Lean 4 proof (induction over notification streams / event sequences) + regenerated cause table (AST translator) + exhaustive tie to _pilot_state_progress, Pilot._update, Agent_0 event sequences; sampled tie to PilotManager._update_pilot',
+         'C14_forward/C14_final_sticky/C14_unknown_ignored prove for every stream of pilot notifications that callbacks form a chain of repeats or single forward steps (gaps filled), that a final state is never left and unknown pilots are ignored; C14_done/C14_canceled/C14_failed prove the cause -> final state mapping for every event sequence of the agent. agentCause_tie (decide over the regenerated Gen/AgentCause.lean) re-checks on every run which method records which cause and whether stop() preserves it.',
+         'Trusted: Lean kernel, translator (AST patterns of agent_0.py), harness; the batch system killing the job is the no-finalize case; bash runs the bootstrapper block.',
+         'DESIGN.md section 6 C14'),
 }
 
 NOT_YET = {}
